@@ -7,15 +7,20 @@
   The model is parametrised by `cfg : Cfg` (defect switches probed from /repo); every general
   theorem holds for all variants.
 
-  Proved (any number of live iterators, all variants): push / delete-by-position / shift act on the
-  DENOTED host list exactly like append / eraseIdx / tail; `hostlist_find` is sound (a reported
-  position holds exactly that name, zero padding and digit-ending prefixes included) and never
-  changes a denoted name.  Witnesses (`decide`) for the recorded defects on `Cfg.unchanged` and
-  their absence on `Cfg.repaired` where a repair exists.
-  Not proved: completeness of find under `Small`, the full iterator refinement (`edit_refines`) and
-  `uniq`; these are tied to the plain-list specification by the correspondence run only.
+  Proved (any number of live iterators, all variants): push / delete-by-position / shift / pop act
+  on the DENOTED host list exactly like append / eraseIdx / tail / dropLast; `hostlist_find` is
+  sound (a reported position holds exactly that name, zero padding and digit-ending prefixes
+  included) and never changes a denoted name; `hostlist_uniq` neither loses nor invents a name when
+  `hostrange_cmp` orders low bounds as numbers (repaired D26, or all low bounds < 2^31) — FALSE of
+  the unchanged code beyond that (witness `uniq_loses_names`, found while proving this).
+  Witnesses (`decide`) for the recorded defects on `Cfg.unchanged` and their absence on
+  `Cfg.repaired` where a repair exists.
+  Not proved: completeness of find under `Small`, the full iterator refinement (`edit_refines`),
+  duplicate-freedom after `uniq` (false: F16-UNIQ); these are tied to the plain-list specification
+  by the correspondence run only.
 -/
 import PdshVerif.Hostlist.LemmasFind
+import PdshVerif.Hostlist.LemmasUniq
 
 namespace PdshVerif.C16
 open PdshVerif.Hostlist PdshVerif.Gen
@@ -40,6 +45,33 @@ theorem deleteNth_hosts (cfg : Cfg) (e : EL) (n : Nat) (hg : e.Good) (hn : n < e
 theorem shift_hosts (cfg : Cfg) (e : EL) (hg : e.Good) (hf : ∀ r ∈ e.ranges, r.ShiftFits) :
     ∃ e', shiftE cfg e = .ok (e.hosts.head?, e') ∧ e'.hosts = e.hosts.tail ∧ e'.Good :=
   shiftE_hosts cfg e hg hf
+
+/-- POP: `hostlist_pop` hands out the last denoted host and leaves the rest (live iterators or not,
+    every variant — D20 is about what the iterators see afterwards) -/
+theorem pop_hosts (cfg : Cfg) (e : EL) (hg : e.Good) (hf : ∀ r ∈ e.ranges, r.ShiftFits) :
+    ∃ e', popE cfg e = .ok (e.hosts.getLast?, e') ∧ e'.hosts = e.hosts.dropLast ∧ e'.Good :=
+  popE_hosts cfg e hg hf
+
+/-- UNIQ keeps the SET of names: whenever `hostlist_uniq` returns (no assertion failure), every
+    name of the list is still there and no name was invented — provided `hostrange_cmp` orders the
+    low bounds as numbers: the repaired comparator (D26), or every low bound below 2^31 -/
+theorem uniq_names (cfg : Cfg) (e e' : EL) (hg : ∀ r ∈ e.ranges, r.Good)
+    (hb : cfg.fixCmpTrunc = true ∨ ∀ r ∈ e.ranges, r.lo < 2147483648) (h : uniqE cfg e = some e') :
+    ∀ x, x ∈ e'.hosts ↔ x ∈ e.hosts :=
+  (uniqE_names cfg e e' hg hb h).1
+
+/-- D26 witness (found while proving `uniq_names`): `x[0-5],x[2147483653]` — the unchanged
+    `hostrange_cmp(x[2147483653], x[0-5])` is `(int)(2147483653 - 0)` = -2147483643 < 0: the big
+    record sorts FIRST, passes the order assertion, and `hostrange_join` (h1.hi ≥ h2.hi, "h2 lies
+    inside h1") deletes x[0-5]: one host left of seven.  The repaired comparator keeps all seven. -/
+theorem uniq_loses_names :
+    (match pushE Cfg.unchanged EL.new "x[0-5],x[2147483653]".toList with
+     | .ok (_, _, e) => (uniqE Cfg.unchanged e).map fun e' => (e'.nhosts, e'.hosts.map String.ofList)
+     | .error _ => none) = some (1, ["x2147483653"]) ∧
+    (match pushE Cfg.repaired EL.new "x[0-5],x[2147483653]".toList with
+     | .ok (_, _, e) => (uniqE Cfg.repaired e).map fun e' => (e'.nhosts, e'.hosts.length)
+     | .error _ => none) = some (7, 7) := by
+  decide
 
 /-- FIND is SOUND: when `hostlist_find` reports position i, the i-th denoted host is exactly the
     name looked for (whole-name match: foo1 ≠ foo01, digit-ending prefixes handled by the
